@@ -309,7 +309,10 @@ class Ctx:
         self.bound_lemmas(cz)
         return self.known(cz)
 
-    def decide(self, cond):
+    def decide(self, cond, raise_split=False):
+        """raise_split=True: the True branch raises out of the enclosing L3 loop.  Then a loop-index dependent
+        condition may be split soundly: True = SOME iteration raises (the generic index is that iteration and the
+        function raises), False = NO iteration raises (so the negation holds for the generic index)."""
         cz = z3.simplify(V.zbool(cond))
         if z3.is_true(cz):
             return True
@@ -326,7 +329,8 @@ class Ctx:
                 return True
             if self.prove(z3.Not(cz)):
                 return False
-            family_guard_decide(self, cz)
+            if not raise_split:
+                family_guard_decide(self, cz)
         if self.pos < len(self.prefix):
             choice = self.prefix[self.pos]
         else:
